@@ -7,6 +7,7 @@
 mod c03;
 mod c04;
 mod c06;
+mod c10;
 mod c16;
 mod c17;
 mod reflex;
@@ -188,6 +189,7 @@ fn main() {
         "C03" => { c03::run(&mut ctx); true }
         "C04" => { c04::run(&mut ctx); true }
         "C06" => { c06::run(&mut ctx); true }
+        "C10" => { c10::run(&mut ctx); true }
         "C16" => { c16::run(&mut ctx); true }
         "C17" => { c17::run(&mut ctx); true }
         _ => false,
